@@ -55,7 +55,18 @@ func startLive(project *types.Project, auto map[string]int) *liveRunner {
 	}
 	lr.runner = runner
 	go func() { _ = runner.Run(); close(lr.done) }()
+	waitSpawned(runner, len(project.Processes))
 	return lr
+}
+
+// waitSpawned waits until Run() has registered an instance for every configured process (on a slow or loaded
+// machine the Run goroutine may not have got that far when the caller goes on)
+func waitSpawned(runner *app.ProjectRunner, n int) {
+	for t0 := time.Now(); time.Since(t0) < 3*time.Second; time.Sleep(200 * time.Microsecond) {
+		if running, done := runner.VerifRegistries(); len(running)+len(done) >= n {
+			return
+		}
+	}
 }
 
 func (lr *liveRunner) stop() {
@@ -763,6 +774,7 @@ func OrdShutMain(args []string) {
 		}
 		runDone := make(chan struct{})
 		go func() { _ = runner.Run(); close(runDone) }()
+		waitSpawned(runner, len(project.Processes))
 		settle()
 		// the removal, in its own goroutine (it waits for the worker to die)
 		victim := r.Intn(reps)
